@@ -9,6 +9,7 @@ import (
 	"runtime"
 	"sort"
 	"sync"
+	"syscall"
 	"time"
 
 	"src.elv.sh/pkg/daemon"
@@ -174,7 +175,7 @@ func runRaces(c *lib.Ctx) []*race {
 	installHooks()
 	restore := daemon.VerifSetSpawnTimeout(time.Second, 10*time.Millisecond) // the real values
 	defer restore()
-	n := c.Pick(60, 1200)
+	n := c.Pick(40, 450)
 	out := make([]*race, n)
 	seeds := make([]int64, n)
 	rng := rand.New(rand.NewSource(c.Seed))
@@ -184,7 +185,7 @@ func runRaces(c *lib.Ctx) []*race {
 	lib.Parallel(n, 4, func(i int) {
 		out[i] = oneRace(rand.New(rand.NewSource(seeds[i])))
 	})
-	return out
+	return append(out, boundProbe())
 }
 
 type diagLine struct {
@@ -192,7 +193,99 @@ type diagLine struct {
 	Init  string   `json:"init"`
 	Inv   []string `json:"inv"`
 	At    int      `json:"at"`
+	Race  int      `json:"race"`
 	Steps []step   `json:"steps"`
+}
+
+// boundProbe is the directed probe for the bind/listen window of net.Listen (no hook can sit inside it):
+// the harness plays a daemon that has bound the socket path and does not listen yet, one real shell
+// activates. What the real Activate does with that socket is recorded like any race.
+func boundProbe() *race {
+	rc := &race{}
+	w, err := newInstance(false)
+	if err != nil {
+		rc.infra = err
+		return rc
+	}
+	fd, err := syscall.Socket(syscall.AF_UNIX, syscall.SOCK_STREAM, 0)
+	if err == nil {
+		err = syscall.Bind(fd, &syscall.SockaddrUnix{Name: w.sock})
+	}
+	if err != nil {
+		rc.infra = fmt.Errorf("bound probe: %v", err)
+		w.teardown()
+		return rc
+	}
+	defer syscall.Close(fd)
+	w.mu.Lock()
+	w.nextD = 1
+	w.evs = []event{{Ev: "Init", P: "bound"}}
+	w.mu.Unlock()
+	w.log(event{Ev: "ShellStart", S: 1})
+	a := w.startShell(1, func(a *actor) {
+		e := event{Ev: "ShellReturn", S: 1, Ok: a.err == nil}
+		if a.err == nil {
+			if v, err := a.cl.Version(); err == nil {
+				e.D = v - versionBase
+			}
+			_, aerr := a.cl.AddCmd("x")
+			e.Db = aerr == nil
+		}
+		w.log(e)
+	})
+	select {
+	case <-a.done:
+	case <-time.After(patience):
+		rc.infra = fmt.Errorf("bound probe: the shell did not finish\n%s", allStacks())
+	}
+	w.mu.Lock()
+	w.stopped = true
+	rc.evs = append([]event{}, w.evs...)
+	w.mu.Unlock()
+	if err := w.teardown(); err != nil && rc.infra == nil {
+		rc.infra = err
+	}
+	return rc
+}
+
+// concat numbers the races of a batch and closes it with an End event.
+func concat(b []*race) []event {
+	var evs []event
+	for i, r := range b {
+		for j, e := range r.evs {
+			if j == 0 {
+				e.N = i + 1
+			}
+			evs = append(evs, e)
+		}
+	}
+	return append(evs, event{Ev: "End", N: len(b)})
+}
+
+// judgeBatch validates the races of a batch in ONE TLC process and returns those that have no
+// explanation satisfying the properties.
+func judgeBatch(c *lib.Ctx, dir string, b []*race) ([]*race, error) {
+	evs := concat(b)
+	v, err := lib.ValidateTrace(c, "TraceActivation", dir, "TraceActivation", evs, 12*time.Minute)
+	if err != nil {
+		return nil, err
+	}
+	if !v.Accepted {
+		return nil, lib.Infra("TraceActivation: high-water %d of %d although Skip is always possible (%s %s)", v.HighWater, len(evs), v.Result.ErrKind, v.InvName)
+	}
+	acc := map[int]bool{}
+	for _, t := range v.Result.Tagged("ACC") {
+		if n, ok := t[0].(int64); ok {
+			acc[int(n)] = true
+		}
+	}
+	var rej []*race
+	for i, r := range b {
+		if !acc[i+1] {
+			rej = append(rej, r)
+		}
+	}
+	return rej, nil
 }
 
 func judgeRaces(c *lib.Ctx, dir string, races []*race) error {
@@ -224,100 +317,79 @@ func judgeRaces(c *lib.Ctx, dir string, races []*race) error {
 	}
 	c.Set("v_races_by_initial_world", kinds)
 	// vacuity guard: a recorded race with one falsified observation must be rejected
+	var corrupt *race
 	if c.Replay == "" {
-		guarded := false
+	search:
 		for _, r := range good {
 			for i, e := range r.evs {
 				if e.Ev == "H" && e.P == "daemon.db-opened" {
-					bad := append([]event{}, r.evs...)
-					bad[i].P = "daemon.db-failed"
-					v, err := lib.ValidateTrace(c, "TraceActivation(selftest-corrupt)", dir, "TraceActivation", bad, 5*time.Minute)
-					if err != nil {
-						return err
-					}
-					if v.Accepted {
-						return lib.Infra("vacuity guard: TraceActivation accepted a race with db-opened turned into db-failed")
-					}
-					guarded = true
-					break
+					corrupt = &race{evs: append([]event{}, r.evs...)}
+					corrupt.evs[i].P = "daemon.db-failed"
+					break search
 				}
 			}
-			if guarded {
-				break
-			}
 		}
-		c.Set("v_vacuity_guard_ran", guarded)
+		c.Set("v_vacuity_guard_ran", corrupt != nil)
 	}
-	perBatch := 20
+	perBatch := 150
 	var batches [][]*race
 	for i := 0; i < len(good); i += perBatch {
-		batches = append(batches, good[i:min(i+perBatch, len(good))])
+		batches = append(batches, append([]*race{}, good[i:min(i+perBatch, len(good))]...))
+	}
+	if corrupt != nil {
+		batches[0] = append(batches[0], corrupt)
 	}
 	var mu sync.Mutex
 	var firstErr error
-	setErr := func(err error) {
+	var rejected []*race
+	lib.Parallel(len(batches), 3, func(bi int) {
+		rej, err := judgeBatch(c, dir, batches[bi])
 		mu.Lock()
-		if firstErr == nil {
-			firstErr = err
-		}
-		mu.Unlock()
-	}
-	lib.Parallel(len(batches), 4, func(bi int) {
-		b := batches[bi]
-		var evs []event
-		for _, r := range b {
-			evs = append(evs, r.evs...)
-		}
-		v, err := lib.ValidateTrace(c, "TraceActivation", dir, "TraceActivation", evs, 8*time.Minute)
+		defer mu.Unlock()
 		if err != nil {
-			setErr(err)
-			return
-		}
-		c.AddTraces(len(b))
-		if v.Accepted {
-			return
-		}
-		if len(b) == 1 {
-			if err := diagnose(c, dir, b[0], v); err != nil {
-				setErr(err)
+			if firstErr == nil {
+				firstErr = err
 			}
 			return
 		}
-		// the batch stops at its first rejected race; judge every race from there on its own
-		pos, from := 0, 0
-		for i, r := range b {
-			if v.HighWater < pos+len(r.evs) {
-				from = i
-				break
-			}
-			pos += len(r.evs)
-		}
-		for _, r := range b[from:] {
-			one, err := lib.ValidateTrace(c, "TraceActivation(single)", dir, "TraceActivation", r.evs, 8*time.Minute)
-			if err != nil {
-				setErr(err)
-				return
-			}
-			if !one.Accepted {
-				if err := diagnose(c, dir, r, one); err != nil {
-					setErr(err)
-					return
-				}
-			}
-		}
+		c.AddTraces(len(batches[bi]))
+		rejected = append(rejected, rej...)
 	})
-	return firstErr
+	if firstErr != nil {
+		return firstErr
+	}
+	if corrupt != nil {
+		found := false
+		var rest []*race
+		for _, r := range rejected {
+			if r == corrupt {
+				found = true
+			} else {
+				rest = append(rest, r)
+			}
+		}
+		if !found {
+			return lib.Infra("vacuity guard: TraceActivation accepted a race with db-opened turned into db-failed")
+		}
+		rejected = rest
+	}
+	c.Set("v_races_rejected", len(rejected))
+	if len(rejected) == 0 {
+		return nil
+	}
+	return diagnose(c, dir, rejected)
 }
 
-// diagnose: the race has no explanation that satisfies the properties. The Diag configuration prints
+// diagnose: the races have no explanation that satisfies the properties. The Diag configuration prints
 // the labelled steps of the explanations that run into a violation; their schedule signature is the key.
-func diagnose(c *lib.Ctx, dir string, r *race, v *lib.TraceVerdict) error {
+func diagnose(c *lib.Ctx, dir string, rs []*race) error {
+	evs := concat(rs)
 	res, err := c.TLC("TraceActivation(diag)", lib.TLCRun{Dir: dir, Module: "TraceActivation", Cfg: "TraceActivationDiag.cfg", Workers: 1, DFS: true,
-		Timeout: 8 * time.Minute, HeapGB: 6, Files: map[string][]byte{"trace.ndjson": lib.NDJSON(r.evs)}})
+		Timeout: 12 * time.Minute, HeapGB: 6, Files: map[string][]byte{"trace.ndjson": lib.NDJSON(evs)}})
 	if err != nil {
 		return err
 	}
-	if res.ErrKind != "" && res.ErrKind != "postcondition" {
+	if res.ErrKind != "" {
 		return lib.Infra("TraceActivation(diag): unexpected TLC outcome %s %s", res.ErrKind, res.Err)
 	}
 	type cand struct {
@@ -325,38 +397,43 @@ func diagnose(c *lib.Ctx, dir string, r *race, v *lib.TraceVerdict) error {
 		inv      []string
 		at       int
 	}
-	var cands []cand
+	cands := map[int][]cand{}
 	for _, l := range res.PrintedStrings() {
 		var d diagLine
 		if json.Unmarshal([]byte(l), &d) != nil || d.Kind != "viol" {
 			continue
 		}
 		cls, sig, at := signature(d.Init, d.Steps)
+		k := cand{key: "activation:" + sig, cls: cls, inv: d.Inv, at: d.At}
 		if at < 0 {
-			cands = append(cands, cand{key: "activation:violates:" + fmt.Sprint(d.Inv), at: d.At, inv: d.Inv})
+			k.key = "activation:violates:" + fmt.Sprint(d.Inv)
+		}
+		cands[d.Race] = append(cands[d.Race], k)
+	}
+	hw := 0
+	for _, t := range res.Tagged("HW") {
+		if n, ok := t[0].(int64); ok {
+			hw = int(n)
+		}
+	}
+	_ = hw
+	for i, r := range rs {
+		rc := map[string]any{"mode": "V", "events": r.evs}
+		cs := cands[i+1]
+		if len(cs) == 0 {
+			c.Reject("activation:trace-rejected", fmt.Sprintf("recorded events of real shells/daemons are not a behaviour of the activation protocol (init %s, %d events; replay the stored case for the first unmatched event)", r.evs[0].P, len(r.evs)), rc)
 			continue
 		}
-		cands = append(cands, cand{key: "activation:" + sig, cls: cls, inv: d.Inv, at: d.At})
+		// every explanation of the race runs into a violation; report the one that gets furthest (ties: by key)
+		sort.Slice(cs, func(a, b int) bool {
+			if cs[a].at != cs[b].at {
+				return cs[a].at > cs[b].at
+			}
+			return cs[a].key < cs[b].key
+		})
+		k := cs[0]
+		c.Inc("v_races_showing_a_violation", 1)
+		c.Reject(k.key, fmt.Sprintf("a free-running race of real shells/daemons has no explanation satisfying the properties: every placement of the unlogged steps violates them (%s; %v) — init %s, %d events", k.cls, k.inv, r.evs[0].P, len(r.evs)), rc)
 	}
-	rc := map[string]any{"mode": "V", "events": r.evs}
-	if len(cands) == 0 {
-		next := "(end)"
-		if v.HighWater < len(r.evs) {
-			b, _ := json.Marshal(r.evs[v.HighWater])
-			next = string(b)
-		}
-		c.Reject("activation:trace-rejected", fmt.Sprintf("recorded events of real shells/daemons are not a behaviour of the activation protocol: matched %d of %d events, first unmatched %s", v.HighWater, len(r.evs), next), rc)
-		return nil
-	}
-	// every explanation of the race runs into a violation; report the one that gets furthest (ties: by key)
-	sort.Slice(cands, func(i, j int) bool {
-		if cands[i].at != cands[j].at {
-			return cands[i].at > cands[j].at
-		}
-		return cands[i].key < cands[j].key
-	})
-	k := cands[0]
-	c.Inc("v_races_showing_a_violation", 1)
-	c.Reject(k.key, fmt.Sprintf("a free-running race of real shells/daemons has no explanation satisfying the properties: every placement of the unlogged steps violates them (%s; %v) — init %s, %d events", k.cls, k.inv, r.evs[0].P, len(r.evs)), rc)
 	return nil
 }
